@@ -32,6 +32,9 @@ def dec_lit(u, p, s):
     return f"CAST('{txt}' AS DECIMAL({p},{s}))"
 
 
+PRE = []
+
+
 def run(tier):
     rep = vlib.Report("C13", tier)
     rng = random.Random(vlib.seed())
@@ -55,7 +58,7 @@ def run(tier):
         for v in vals[:: max(1, len(vals) // 40)] + [vals[0], vals[-1]]:
             add("int_text", f"SELECT CAST({lit(v, sn)} AS TEXT), CAST(CAST({lit(v, sn)} AS TEXT) AS {sn})", v=v)
         # int -> decimal
-        for (p, s) in [(3, 0), (5, 2), (18, 3), (18, 18), (38, 0), (38, 10), (10, 9)]:
+        for (p, s) in [(3, 0), (5, 2), (18, 3), (18, 18), (38, 0), (38, 10), (10, 9), (2, 0), (4, 0), (4, 2), (6, 2), (9, 0), (11, 2), (18, 0), (19, 0), (20, 1)]:
             for v in boundary(sw, ss, False):
                 add("int_dec", f"SELECT CAST({lit(v, sn)} AS DECIMAL({p},{s}))", v=v, p=p, s=s)
     # decimal -> decimal / int / text
@@ -85,6 +88,42 @@ def run(tier):
             inner = f"CAST({dec_lit(u, p, s)} AS DECIMAL({p2},{s2}))"
             add("dec_chain", f"SELECT {inner}, 1", chain_first=True, v=u, s1=s, p=p2, s=s2)
             add("dec_chain", f"SELECT CAST({inner} AS DECIMAL({p3},{s3}))", chain_second=True, s1=s2, p=p3, s=s3)
+    # the same conversions over table columns (nothing is folded at plan time; the innermost expression is a typed column)
+    COLS = [("d102", 10, 2, [150, -135, 2225, 9999999999, -5, 250, -250, 12345, 0]), ("d184", 18, 4, [15000, -13500, 999999999999999999, 25000, -25000, 1, -1]),
+            ("d52", 5, 2, [125, -125, 99999, -99999, 995, 5]), ("d3010", 30, 10, [15000000000, -25000000000, 10 ** 30 - 1, 12345678901, -5])]
+    ICOLS = [("i8", "TINYINT", 8, [-128, -1, 0, 100, 127]), ("i32", "INT", 32, [-2147483648, -129, 0, 128, 300, 2147483647]),
+             ("i64", "BIGINT", 64, [-9223372036854775808, -32769, 0, 255, 256, 70000, 9223372036854775807])]
+    nrow = max(len(c[3]) for c in COLS + ICOLS)
+    global PRE
+    PRE = ["CREATE TEMP TABLE cc (k INT, " + ", ".join(f"{n} DECIMAL({p},{s_})" for n, p, s_, _ in COLS) + ", " +
+           ", ".join(f"{n} {t}" for n, t, _, _ in ICOLS) + ")"]
+    for r_ in range(nrow):
+        vals_ = [str(r_)] + [dec_lit(c[3][r_], c[1], c[2]) if r_ < len(c[3]) else "NULL" for c in COLS] + \
+                [lit(c[3][r_], c[1]) if r_ < len(c[3]) else "NULL" for c in ICOLS]
+        PRE.append("INSERT INTO cc VALUES (" + ", ".join(vals_) + ")")
+    for n, p, s_, vs in COLS:
+        for r_, u in enumerate(vs):
+            for (p2, s2) in [(12, 4), (6, 1), (3, 0), (18, 0), (38, 10), (38, 4), (20, 1), (p, s_)]:
+                add("dec_dec", f"SELECT CAST({n} AS DECIMAL({p2},{s2})) FROM cc WHERE k = {r_}", v=u, s1=s_, p=p2, s=s2)
+            for (p2, s2, p3, s3) in [(10, 1, 38, 4), (3, 0, 38, 2), (6, 1, 18, 4), (18, 0, 38, 10)]:
+                inner = f"CAST({n} AS DECIMAL({p2},{s2}))"
+                add("dec_chain", f"SELECT {inner}, 1 FROM cc WHERE k = {r_}", chain_first=True, v=u, s1=s_, p=p2, s=s2)
+                add("dec_chain", f"SELECT CAST({inner} AS DECIMAL({p3},{s3})) FROM cc WHERE k = {r_}", chain_second=True, s1=s2, p=p3, s=s3)
+                # an implicit widening on top of an explicit narrowing cast
+                add("dec_chain", f"SELECT {inner}, 1 FROM cc WHERE k = {r_}", chain_first=True, v=u, s1=s_, p=p2, s=s2)
+                add("dec_chain", f"SELECT {inner} + CAST(0 AS DECIMAL(38,{s2})) FROM cc WHERE k = {r_}", chain_second=True, s1=s2, p=38, s=s2)
+            for tn, tw, ts in INTS[::2]:
+                add("dec_int", f"SELECT CAST({n} AS {tn}) FROM cc WHERE k = {r_}", v=u, s1=s_, ty={"w": tw, "s": ts})
+    for n, t, w_, vs in ICOLS:
+        for r_, v in enumerate(vs):
+            for tn, tw, ts in INTS:
+                if tn != t:
+                    add("int_int", f"SELECT CAST({n} AS {tn}) FROM cc WHERE k = {r_}", v=v, ty={"w": tw, "s": ts})
+            for t1n, t1w, t1s in INTS:
+                if t1w < w_:
+                    add("int_chain", f"SELECT CAST(CAST({n} AS {t1n}) AS BIGINT) FROM cc WHERE k = {r_}", v=v, ty1={"w": t1w, "s": t1s}, ty={"w": 64, "s": True})
+            for (p, s_) in [(2, 0), (4, 0), (9, 0), (18, 0), (19, 0), (5, 2), (38, 10)]:
+                add("int_dec", f"SELECT CAST({n} AS DECIMAL({p},{s_})) FROM cc WHERE k = {r_}", v=v, p=p, s=s_)
     # float -> int (truncation)
     for x in [0.0, -0.0, 0.5, -0.5, 0.999, 1.5, -1.5, 2.5, -2.5, 126.9, 127.0, 127.5, 128.0, -128.0, -128.9, -129.0, 255.9, 256.0,
               32767.99, 32768.0, 2147483647.0, 2147483648.0, -2147483648.0, -2147483649.0, 9.223372036854775e18, 9.3e18, 1e19,
@@ -121,22 +160,23 @@ def run(tier):
     vcases = []
     for i in range(0, len(cases), per):
         vcases.append({"id": len(vcases), "rt": {"kind": "threaded", "threads": 1},
-                       "steps": [{"sql": c["sql"]} for c in cases[i:i + per]], "timeout": 120})
+                       "steps": [{"sql": q_} for q_ in PRE] + [{"sql": c["sql"]} for c in cases[i:i + per]], "timeout": 120})
     res = vlib.Driver(nworkers=14, case_timeout=120).run(vcases)
     obs = []
     for vc, r in zip(vcases, res):
         n = len(vc["steps"])
         if r is None or "steps" not in r:
             # isolate
-            singles = [{"id": j, "rt": {"kind": "threaded", "threads": 1}, "steps": [s], "timeout": 20} for j, s in enumerate(vc["steps"])]
+            singles = [{"id": j, "rt": {"kind": "threaded", "threads": 1}, "steps": [{"sql": q_} for q_ in PRE] + [s], "timeout": 20}
+                       for j, s in enumerate(vc["steps"][len(PRE):])]
             rr = vlib.Driver(nworkers=14, case_timeout=20).run(singles)
             for x in rr:
                 if x is None or "steps" not in x:
                     obs.append({"outcome": "abort" if (x or {}).get("abort") else "timeout", "msg": " || ".join(p for p in (x or {}).get("panic", []) if p)})
                 else:
-                    obs.append(x["steps"][0][-1])
+                    obs.append(x["steps"][-1][-1])
         else:
-            obs += [s[-1] for s in r["steps"]]
+            obs += [s[-1] for s in r["steps"][len(PRE):]]
 
     def num(v):
         if v is None or isinstance(v, bool):
